@@ -226,3 +226,23 @@ Proof.
 Qed.
 Theorem delete_trace_ok_of_model : delete_trace_ok [Sev 9 1 0] = true /\ lts_delete = Some [9%Z].
 Proof. split; vm_compute; reflexivity. Qed.
+
+(** the List-after-crash / List-during-Stores monitors accept only listings that contain every
+    committed key; the model side: every present key below a directory prefix is listed
+    (C10_prefix_by_component, C10_list_nonrecursive_direct_children) and a temp inode is never
+    named by a key (unfinished_store_invisible) *)
+Theorem check_crash_list_sound acked started loaded missing : check_crash_list acked started loaded missing = 0%Z ->
+  missing = 0%Z /\ (loaded = acked \/ loaded = started) /\ (started = acked \/ started = (acked + 1)%Z).
+Proof.
+  unfold check_crash_list, code. intros H.
+  destruct (missing =? 0)%Z eqn:M; [|rewrite !andb_false_r in H; cbn in H; discriminate].
+  apply Z.eqb_eq in M. split; [exact M|]. apply check_crash_sound.
+  rewrite !andb_true_r in H.
+  destruct (check_crash acked started loaded =? 0)%Z eqn:C0; [apply Z.eqb_eq; exact C0|].
+  destruct (check_crash acked started loaded =? 2)%Z eqn:C2, (check_crash acked started loaded =? 1)%Z eqn:C1; cbn in H; try discriminate.
+  apply Z.eqb_eq in C2, C1. congruence.
+Qed.
+Theorem check_list_race_sound lists missing : check_list_race lists missing = 0%Z -> missing = 0%Z.
+Proof.
+  unfold check_list_race, code. destruct (missing =? 0)%Z eqn:M; [intros _; apply Z.eqb_eq; exact M | cbn; discriminate].
+Qed.
